@@ -274,6 +274,10 @@ def run_conelp_family(ctx, judge_status, mix, with_backends=True, op_fraction=0.
         if getattr(pr, "boundary_ray", False):
             ctx.count("dinf.boundary-ray")
         d = pr.dims
+        if pr.p >= 1 and rng.random() < 0.12 and gp.homogenize_equalities(pr):
+            # homogeneous equality constraints (b exactly zero, p > 0); with a user start the first iterate need not satisfy them
+            ctx.count("homogeneous-equalities")
+            c.desc["b"] = "zero"
         sparse = rng.random() < 0.4
         junk = bool(d.s) and rng.random() < 0.4
         # hq[k] / hs[k] may be sparse (coneprog docstrings): stored sparse, with structural zeros where the planted
